@@ -13,7 +13,7 @@
     No bound on the number of orders, addresses or record names; every interleaving and every
     combination of faults is a history. *)
 From Coq Require Import ZArith.
-From CM Require Import Lib.Str Gen.Consts Safe.Model Challenge.Assoc Challenge.Model Solvers.Model Solvers.Proofs Solvers.E2E Solvers.E2EProofs Solvers.Config Solvers.ConfigProofs Solvers.Tie.
+From CM Require Import Lib.Str Gen.Consts Safe.Model Challenge.Assoc Challenge.Model Solvers.Model Solvers.Proofs Solvers.E2E Solvers.E2EProofs Solvers.Config Solvers.ConfigProofs Solvers.MoreProofs Solvers.DnsExact Solvers.DnsExactProofs Solvers.Objects Solvers.ObjectsProofs Solvers.Tie.
 Open Scope Z_scope.
 
 (** the use count of an address is the number of pending challenges on it; the entry (and with
@@ -184,6 +184,103 @@ Theorem C16_cfg_spec_holds : forall lower is_space c, cfg_spec lower is_space c 
 Proof. exact cfg_spec_holds. Qed.
 Print Assumptions C16_cfg_spec_holds.
 
+
+(** * acmez's discipline as the explicit hypothesis.  What the recording solver sees in the real
+    orders — per challenge [Present; CleanUp], CleanUp exactly once, also after a failed Present and
+    after cancellation; concurrent orders interleave — is [merge (map prog ts) ops]; under THAT
+    hypothesis nothing is left *)
+Theorem C16_acmez_discipline_leaves_nothing : forall sf honour ts ops, merge (map prog ts) ops ->
+  let s := srun sf honour ops in
+  disc ops = true /\ spending ops = [] /\
+  solvers s = [] /\ s_mem s = [] /\ dns_mem s = [] /\
+  (storage_delete_fault ops = false -> s_store s = []) /\
+  (provider_delete_fault ops = false -> dns_recs s = []).
+Proof. exact acmez_discipline_leaves_nothing. Qed.
+Print Assumptions C16_acmez_discipline_leaves_nothing.
+
+(** a CleanUp ends the challenge under every fault: cancelled context, failing Delete, failing
+    DeleteRecords — the memory entry is gone *)
+Theorem C16_cleanup_forgets_under_every_fault : forall sf honour s o f,
+  aget str_eqb (ck o) (s_mem (nxt sf honour s (SClean o f))) = None.
+Proof. exact cleanup_forgets_under_every_fault. Qed.
+Print Assumptions C16_cleanup_forgets_under_every_fault.
+
+(** the [None] branch of [validation_spec] beyond quiescence: an order that is not pending and
+    shares no memory key, token key or record with a pending one is not validated, whatever else
+    is pending (the finished order of two that shared a listener) *)
+Theorem C16_unrelated_order_not_validated : forall sf honour feq ops o,
+  disc ops = true -> storage_delete_fault ops = false -> provider_delete_fault ops = false ->
+  good_order o ->
+  (forall e, In e (spending ops) ->
+     (is_listener (o_kind o) = true -> ck (fst e) <> ck o /\ tk sf (fst e) <> tk sf o) /\
+     (o_kind o = KDns -> orec (fst e) <> orec o)) ->
+  validates sf feq false (srun sf honour ops) o = false.
+Proof. exact unrelated_order_not_validated. Qed.
+Print Assumptions C16_unrelated_order_not_validated.
+
+(** * DNS records against a provider that normalises and deletes by exact match (Solvers/DnsExact.v)
+    "every DNS record that was created is deleted again": for EVERY DNSManager.TTL and EVERY minimum
+    TTL of the provider, with the record remembered AS CREATED (results[0].RR(), what the code does),
+    the zone holds exactly one record per pending challenge, a CleanUp removes its record, and an
+    empty pending list means an empty zone; two challenges sharing a name are told apart by value *)
+Theorem C16_dns_zone_is_memory : forall ttl minttl ops, dfresh ops = true ->
+  zone (drun ttl minttl true ops) = DnsExact.dmem (drun ttl minttl true ops) /\
+  map nvof (zone (drun ttl minttl true ops)) = dpending ops.
+Proof. exact zone_is_memory. Qed.
+Print Assumptions C16_dns_zone_is_memory.
+
+Theorem C16_dns_cleanup_deletes_created : forall ttl minttl ops n v, dfresh (ops ++ [DClean n v]) = true ->
+  forall r, In r (zone (drun ttl minttl true (ops ++ [DClean n v]))) -> nvof r <> (n, v).
+Proof. exact cleanup_deletes_created. Qed.
+Print Assumptions C16_dns_cleanup_deletes_created.
+
+Theorem C16_dns_created_stays_while_pending : forall ttl minttl ops n v, dfresh ops = true ->
+  In (n, v) (dpending ops) -> exists r, In r (zone (drun ttl minttl true ops)) /\ nvof r = (n, v).
+Proof. exact created_stays_while_pending. Qed.
+Print Assumptions C16_dns_created_stays_while_pending.
+
+Theorem C16_dns_quiescent_zone_empty : forall ttl minttl ops, dfresh ops = true -> dpending ops = [] ->
+  zone (drun ttl minttl true ops) = [].
+Proof. exact quiescent_zone_empty. Qed.
+Print Assumptions C16_dns_quiescent_zone_empty.
+
+(** remembering the record AS REQUESTED is the same when the provider does not clamp the TTL ... *)
+Theorem C16_dns_requested_same_when_not_clamped : forall ttl minttl ops, norm minttl ttl = ttl ->
+  drun ttl minttl false ops = drun ttl minttl true ops.
+Proof. exact requested_same_when_not_clamped. Qed.
+Print Assumptions C16_dns_requested_same_when_not_clamped.
+
+(** ... and false when it does: TTL 10 s against a minimum of 60 s, one challenge presented and
+    cleaned up — CleanUp finds its memory, forgets it, DeleteRecords ignores the pattern, the record stays *)
+Theorem C16_dns_requested_leaves_record_refuted : exists ttl minttl ops,
+  dfresh ops = true /\ dpending ops = [] /\ DnsExact.dmem (drun ttl minttl false ops) = [] /\
+  zone (drun ttl minttl false ops) <> [].
+Proof. exact requested_leaves_record_refuted. Qed.
+Print Assumptions C16_dns_requested_leaves_record_refuted.
+
+(** * Where the listener state lives (Solvers/Objects.v): count, listener and the flag that ends the
+    TLS-ALPN accept loop are per ADDRESS; solver objects are per issuance *)
+Theorem C16_state_is_per_address : forall place s op, forget (fst (ostep place s op)) = plain_step (forget s) op.
+Proof. exact state_is_per_address. Qed.
+Print Assumptions C16_state_is_per_address.
+
+Theorem C16_per_address_flag_always_returns : forall ops s, snd (orun PerAddress s ops) = true.
+Proof. exact per_address_always_returns. Qed.
+Print Assumptions C16_per_address_flag_always_returns.
+
+Theorem C16_per_object_flag_refuted : exists ops,
+  snd (orun PerObject linit ops) = false /\ snd (orun PerAddress linit ops) = true /\
+  fst (orun PerObject linit ops) = LState [] (l_obj_closed (fst (orun PerObject linit ops))).
+Proof. exact per_object_flag_refuted. Qed.
+Print Assumptions C16_per_object_flag_refuted.
+
+Theorem C16_per_object_flag_invisible_with_one_object : forall obj ops,
+  (forall op, In op ops -> match op with OPresent o _ _ | OClean o _ => o = obj end) ->
+  forall s, (forall a e, aget str_eqb a (l_solvers s) = Some e -> le_listening e = true -> le_opener e = obj) ->
+  snd (orun PerObject s ops) = true.
+Proof. exact per_object_one_object_returns. Qed.
+Print Assumptions C16_per_object_flag_invisible_with_one_object.
+
 (** * Non-vacuity and worked instances *)
 Local Open Scope N_scope.
 Definition ex_sf := safe (tbl_lower []) (tbl_space []).
@@ -251,4 +348,46 @@ Example C16_config_instance :
   map (fun d => (sd_type d, sd_addr d)) (solver_set (tbl_lower []) (tbl_space []) c) =
     [(THttp, [91;58;58;49;93;58;53;48;48;50]); (TTlsAlpn, [91;58;58;49;93;58;56;52;52;51])] /\
   enabled c TDns = false /\ enabled c THttp = true.
+Proof. vm_compute. repeat split; reflexivity. Qed.
+
+(** the call sequences observed in the end-to-end orders are histories of the discipline:
+    two DNS orders sharing a record name, the first cancelled ([P d1; P d2; C d1 (cancelled); C d2]);
+    retry with the other challenge type ([P o1; C o1; P t1; C t1]); a failed Present that still gets
+    its CleanUp ([P d1 (provider fails); C d1]) *)
+Definition provider_fails := Faults false false true BOk.
+Example C16_observed_sequences_are_disciplined :
+  merge (map prog [(d1, ok, cancelled); (d2, ok, ok)]) [SPresent d1 ok; SPresent d2 ok; SClean d1 cancelled; SClean d2 ok] /\
+  merge (map prog [(o1, ok, ok); (t1, ok, ok)]) [SPresent o1 ok; SClean o1 ok; SPresent t1 ok; SClean t1 ok] /\
+  merge (map prog [(d1, provider_fails, ok)]) [SPresent d1 provider_fails; SClean d1 ok].
+Proof.
+  cbn [map prog]. repeat split.
+  - apply (merge_step [] _ _ _). apply (merge_step [_] _ _ []). apply (merge_step [] _ _ _). apply (merge_step [_] _ _ []).
+    apply merge_nil. repeat constructor.
+  - apply (merge_step [] _ _ _). apply (merge_step [] _ _ _). apply (merge_step [_] _ _ []). apply (merge_step [_] _ _ []).
+    apply merge_nil. repeat constructor.
+  - apply (merge_step [] _ _ _). apply (merge_step [] _ _ _). apply merge_nil. repeat constructor.
+Qed.
+
+(** the finished order of two that shared a listener: hypotheses of
+    [C16_unrelated_order_not_validated] hold, o1 pending and validated, o2 over and not *)
+Example C16_unrelated_order_instance :
+  let h := [SPresent o1 ok; SPresent o2 ok; SClean o2 ok] in
+  (disc h && negb (storage_delete_fault h) && negb (provider_delete_fault h) && good_order_b o2 &&
+   is_listener (o_kind o2) &&
+   forallb (fun e => negb (str_eqb (ck (fst e)) (ck o2)) && negb (skey_eqb (tk ex_sf (fst e)) (tk ex_sf o2))) (spending h) &&
+   negb (is_nil (spending h)) &&
+   validates ex_sf (tbl_feq []) false (srun ex_sf true h) o1 &&
+   negb (validates ex_sf (tbl_feq []) false (srun ex_sf true h) o2)) = true.
+Proof. vm_compute. reflexivity. Qed.
+
+(** DNS, exact-match provider: example.com and *.example.com share the record name; TTL 10 s is
+    clamped to 60 s; the first is cleaned up, the second's record (and only it) is still there *)
+Example C16_dns_exact_instance :
+  let n := [95;97] in
+  let h := [DPresent n [118;49]; DPresent n [118;50]; DClean n [118;49]] in
+  dfresh h = true /\ dpending h = [(n, [118;50])] /\
+  zone (drun 10 60 true h) = [(n, [118;50], 60%Z)] /\
+  zone (drun 10 60 true (h ++ [DClean n [118;50]])) = [] /\
+  zone (drun 10 60 false (h ++ [DClean n [118;50]])) = [(n, [118;49], 60%Z); (n, [118;50], 60%Z)] /\
+  zone (drun 0 60 false (h ++ [DClean n [118;50]])) = [] /\ norm 60 120 = 120%Z.
 Proof. vm_compute. repeat split; reflexivity. Qed.
